@@ -102,6 +102,27 @@ CloudStep(c, t) ==
   << << F(HourOf(BeginOf(c, t)) * 100), I(YYJJJ(BeginOf(c, t))) >> >>
   \o FlattenSeq([k \in 1..c.nz |-> [v \in 1..c.nv |-> Grid(c, v, t, k)]])
 
+\* ---------------------------------------------------------------- land use
+\* time independent: (new style: a key record, then) the land-use fractions of
+\* c.nz categories as one record [category][row][column]; optionally further
+\* two-dimensional records (new style: each with its key record)
+\* c.newstyle, c.nopt (0..2 optional records), c.nz categories (11 or 26), c.nt = 1
+LuMainKey(c) == IF c.nz = 26 THEN <<"LUCA", "T26 ">> ELSE <<"LUCA", "T11 ">>
+LuOptKeys(c) == IF c.nopt = 2 THEN << <<"LAI ", "    ">>, <<"TOPO", "    ">> >>
+                ELSE IF c.nopt = 1 THEN << <<"TOPO", "    ">> >> ELSE <<>>
+LuFland(c) == [q \in 1..(c.nz * c.ny * c.nx) |->
+                 F(Token(1, 1, ((q - 1) \div (c.ny * c.nx)) + 1, (((q - 1) \div c.nx) % c.ny) + 1, ((q - 1) % c.nx) + 1))]
+LuOpt(c, o) == [q \in 1..(c.ny * c.nx) |-> F(Token(o + 1, 1, 0, ((q - 1) \div c.nx) + 1, ((q - 1) % c.nx) + 1))]
+LanduseLayout(c) ==
+  (IF c.newstyle THEN << << S4(LuMainKey(c)[1]), S4(LuMainKey(c)[2]) >> >> ELSE <<>>) \o << LuFland(c) >> \o
+  FlattenSeq([o \in 1..c.nopt |->
+     (IF c.newstyle THEN << << S4(LuOptKeys(c)[o][1]), S4(LuOptKeys(c)[o][2]) >> >> ELSE <<>>) \o << LuOpt(c, o) >>])
+\* the variables the reader presents
+LuNames(c) == IF c.newstyle
+              THEN << IF c.nz = 26 THEN "LUCAT26" ELSE "LUCAT11" >> \o
+                   (IF c.nopt = 2 THEN <<"LAI", "TOPO">> ELSE IF c.nopt = 1 THEN <<"TOPO">> ELSE <<>>)
+              ELSE <<"FLAND">> \o (IF c.nopt = 1 THEN <<"TOPO">> ELSE <<>>)
+
 \* ------------------------------------------------------- lateral boundary
 \* the four header records of the gridded format (NAME = BOUNDARY), four edge
 \* definition records (west, east, south, north), and per step a time record
@@ -131,6 +152,8 @@ FmtVars(c) ==
     [] c.fmt = "temperature" -> << [name |-> "SURFTEMP", s |-> 1, surf |-> TRUE, edge |-> 0], [name |-> "AIRTEMP", s |-> 2, surf |-> FALSE, edge |-> 0] >>
     [] c.fmt = "height_pressure" -> << [name |-> "HGHT", s |-> 1, surf |-> FALSE, edge |-> 0], [name |-> "PRES", s |-> 2, surf |-> FALSE, edge |-> 0] >>
     [] c.fmt = "cloud_rain" -> [v \in 1..c.nv |-> [name |-> CloudNames(c)[v], s |-> v, surf |-> FALSE, edge |-> 0]]
+    [] c.fmt = "landuse" -> [q \in 1..(1 + c.nopt) |->
+         [name |-> LuNames(c)[q], s |-> q, surf |-> (q > 1), edge |-> 0]]
     [] c.fmt = "wind" -> << [name |-> "U", s |-> 1, surf |-> FALSE, edge |-> 0], [name |-> "V", s |-> 2, surf |-> FALSE, edge |-> 0] >>
 
 \* compact form for large grids: the data slab is one field [t |-> "g", s, tt, k]
@@ -153,6 +176,7 @@ Layout(c) ==
     [] c.fmt \in MetFmts -> FlattenSeq([t \in 1..c.nt |-> MetStep(c, t)])
     [] c.fmt = "cloud_rain" -> CloudHeader(c) \o FlattenSeq([t \in 1..c.nt |-> CloudStep(c, t)])
     [] c.fmt = "lateral_boundary" -> LatHeader(c) \o FlattenSeq([t \in 1..c.nt |-> LatStep(c, t)])
+    [] c.fmt = "landuse" -> LanduseLayout(c)
 
 \* ------------------------------------------------------------ record algebra
 RecBytes(r) == 4 * Len(r) + 8                  \* payload + two length markers
@@ -161,7 +185,7 @@ SumLens(rs) == IF Len(rs) = 0 THEN 0 ELSE RecBytes(Head(rs)) + SumLens(Tail(rs))
 FileBytes(c) == SumLens(Layout(c))
 \* offset of the first byte after the first n records
 Offset(c, n) == SumLens(SubSeq(Layout(c), 1, n))
-NHeader(c) == CASE c.fmt = "uamiv" -> 4 [] c.fmt \in MetFmts -> 0 [] c.fmt = "cloud_rain" -> 1 [] c.fmt = "lateral_boundary" -> 8
+NHeader(c) == CASE c.fmt = "uamiv" -> 4 [] c.fmt \in MetFmts -> 0 [] c.fmt = "cloud_rain" -> 1 [] c.fmt = "lateral_boundary" -> 8 [] c.fmt = "landuse" -> 0
 RecsPerStep(c) == CASE c.fmt = "uamiv" -> 1 + Len(c.spc) * c.nz
                     [] c.fmt \in OneVarFmts -> c.nz
                     [] c.fmt = "temperature" -> c.nz + 1
@@ -169,6 +193,7 @@ RecsPerStep(c) == CASE c.fmt = "uamiv" -> 1 + Len(c.spc) * c.nz
                     [] c.fmt = "wind" -> 2 * c.nz + 2
                     [] c.fmt = "cloud_rain" -> 1 + c.nz * c.nv
                     [] c.fmt = "lateral_boundary" -> 1 + 4 * Len(c.spc)
+                    [] c.fmt = "landuse" -> (IF c.newstyle THEN 2 ELSE 1) * (1 + c.nopt)
 \* number of complete time steps contained in the first n bytes
 CompleteSteps(c, n) ==
   LET hb == Offset(c, NHeader(c))
